@@ -775,7 +775,7 @@ def child_launch(arg: dict) -> dict:
                     kind = [k for n, k, *_ in spec["users"] if n == name][0]
                     c.collect(pc.sample_of(kind, LAgent.n[0]))
             real_time.sleep(0.002)
-            return None
+            return pc.ANY_ACTION
 
     rec = pc.Rec()
     interaction, comps = pc.build_interaction(spec["tree"], spec["states"], False, rec, agent_cls=LAgent)
